@@ -207,6 +207,19 @@ class C(Check):
             syms = [S(n) for n in names]
             e = expr(rng, rng.choice((1, 2, 2, 3)), syms)
             amap = {n: rng.choice(list(POOLS)) for n in names}
+            if rng.random() < 0.3:
+                # sign reasoning on linear combinations / products of same-kind symbols (non-strict assumptions, negative coefficients, zero constant)
+                kind = rng.choice([k for k in POOLS if k and k != ('zero',)] + [('nonpositive',), ('nonnegative',)])
+                amap = {n: (kind if rng.random() < 0.8 else rng.choice(list(POOLS))) for n in names}
+                cf = lambda: rng.choice((I(-1), I(-1), I(1), I(2), I(-2), FR(R(-1, 2)), FR(R(1, 3))))
+                terms = [('mul', cf(), sy) for sy in syms]
+                if rng.random() < 0.3:
+                    terms.append(rng.choice((I(1), I(-1), I(0), FR(R(1, 2)))))
+                e = ('add',) + tuple(terms) if len(terms) > 1 else terms[0]
+                if rng.random() < 0.25:
+                    e = ('mul', cf()) + tuple(syms)
+                if rng.random() < 0.15:
+                    e = (rng.choice(('abs', 'exp', 'neg')), e)
             alist = tuple((kind, S(n)) for n in names for kind in amap[n])
             stmts = [('let', 'e', e), ('let', 'a', ('assume',) + alist), ('emit', '$e')]
             stmts += [('emit', (q, '$e', '$a')) for q in QUERIES] + [('emit', (q, '$e')) for q in NOASSUM]
